@@ -208,6 +208,9 @@ var effectFreePrefixes = []string{
 	"(time.Duration).String", "encoding/hex.", "encoding/binary.", "bytes.", "sort.Strings", "unicode.", "math/bits.",
 	"(github.com/cosmos/cosmos-sdk/types.Coin).String", "(github.com/cosmos/cosmos-sdk/types.Coins).String", "(github.com/cosmos/cosmos-sdk/types.DecCoins).String",
 	"github.com/ethereum/go-ethereum/crypto.Keccak256",
+	"github.com/cosmos/cosmos-sdk/types.NewCoin", "github.com/cosmos/cosmos-sdk/types.NewCoins", "github.com/cosmos/cosmos-sdk/types.NewDecCoin",
+	"github.com/cosmos/cosmos-sdk/types.NewDecCoins", "github.com/cosmos/cosmos-sdk/types.NewInt64Coin",
+	"github.com/cosmos/cosmos-sdk/x/auth/types.NewModuleAddress",
 }
 
 func isEffectFree(q string) bool {
@@ -379,7 +382,25 @@ func (fr *frame) havocModifies(st *PState, env *SpecEnv, item string, ct *Contra
 		key, _ := env.Tr(call.Args[2])
 		_ = t
 		state := Select(st.kv, cell, SState)
-		st.kv = st.Name("kv", Store(st.kv, cell, Store(state, App("SK", "mkSK", sid, key), st.Fresh("val_mod", SBytes))))
+		st.kv = st.Name("kv", Store(st.kv, cell, stSet(state, sid, key, st.Fresh("val_mod", SBytes))))
+	case strings.HasPrefix(item, "store("):
+		// store(ctx, "name"): the whole module store
+		e, err := ParseSpecExpr(item)
+		if err != nil {
+			bail("modifies %s: %v", item, err)
+		}
+		call := e.(*ast.CallExpr)
+		c, err := env.Tr(call.Args[0])
+		if err != nil {
+			bail("modifies %s: %v", item, err)
+		}
+		cell := c
+		if c.Sort == SCtx {
+			cell = App(SInt, "ctx_cell", c)
+		}
+		sid := env.storeArgSafe(call.Args[1])
+		state := Select(st.kv, cell, SState)
+		st.kv = st.Name("kv", Store(st.kv, cell, Store(state, sid, st.Fresh("store_mod", SStore))))
 	case strings.HasPrefix(item, "heap["):
 		tn := item[len("heap[") : len(item)-1]
 		gt := ex.LookupType(tn)
